@@ -481,6 +481,8 @@ def run(ctx):
     finally:
         try:
             extra_oracles.vine_history(ctx, ('structure',))
+            from .. import extra_oracles2
+            extra_oracles2.vine_api(ctx, ('positional-seed', 'duplicated-rows'))
         except Exception as ex:       # the oracle itself must never hide the result of the check proper
             ctx.obligation('oracle:extra:raised', False, 'correspondence', repr(ex))
             ctx.violation('oracle:extra:raised:' + type(ex).__name__, 'history oracle raised ' + repr(ex), {'repro': '# see tools/vf/extra_oracles.py'})
